@@ -7,8 +7,9 @@
         definition levels / the not-null mask / the dictionary codes - the round-trip and size theorems of the writer's
         encoders, on the text the repository holds now.                                                              *)
 From Coq Require Import NArith Arith List Bool Lia.
-From Pq Require Import Base.Bytes Base.ListX Codec.Varint Codec.Bitpack Codec.Hybrid Impl.WLevels
-  Proofs.ListXProofs Proofs.CodecProofs Proofs.WLevelsProofs.
+From Coq Require Import ZArith.
+From Pq Require Import Base.Bytes Base.ListX Codec.Varint Codec.Bitpack Codec.Hybrid Codec.Plain Impl.WLevels Impl.Dispatch
+  Proofs.ListXProofs Proofs.CodecProofs Proofs.WLevelsProofs Proofs.DispatchProofs.
 From PqGen Require Import GenWriter.
 Import ListNotations.
 Open Scope N_scope.
@@ -27,6 +28,14 @@ Proof. intros H. unfold uleb_enc. apply uleb_enc_f_len; [lia|]. exact H. Qed.
 
 Lemma header_fits m : m < 2 ^ 63 -> lenN (uleb_enc m ++ [1]) <= 10.
 Proof. intros H. rewrite lenN_ok, app_length. cbn [length]. pose proof (uleb_len9 m H). lia. Qed.
+
+(* ---- 0. encode_dict: what follows the run header ---- *)
+(* the bytes behind the run header are the codes array itself - NOT another representation (a cast to some other dtype):
+   the width byte is then the item size of what follows, and the codes are the non-negative values of pandas' SIGNED code
+   dtype of k bytes, i.e. below 2^(8k-1) *)
+Theorem gen_encode_dict_body_is_the_codes : gen_encode_dict_keeps_codes = true.
+Proof. reflexivity. Qed.
+Print Assumptions gen_encode_dict_body_is_the_codes.
 
 (* ---- 1. regenerated text = the blocks of Impl/WLevels.v ------------------------------------------------------- *)
 Theorem gen_defs_nonull_is_block : forall version n (mask : bytes), n < 2 ^ 62 ->
@@ -84,6 +93,32 @@ Proof.
   - rewrite lenN_ok. cbn [app length]. pose proof (uleb_len9 h Hh). lia.
 Qed.
 Print Assumptions gen_encode_dict_is_block.
+
+(* ---- 1b. encode_dict: what follows the header, and fastparquet's own reader ------------------------------------ *)
+(* the created_by-keyed shortcut of the page readers views the whole-byte indices as SIGNED integers ('int%i' % bit_width):
+   Impl/Dispatch.signed_view *)
+Theorem gen_encode_dict_own_reader : forall k codes,
+  (k = 1 \/ k = 2 \/ k = 4)%nat -> N.of_nat (length codes) < 2 ^ 62 ->
+  Forall (fun c => c < 2 ^ (8 * N.of_nat k - 1)) codes ->
+  exists body, gen_encode_dict k codes = (8 * N.of_nat k) :: body /\
+    option_map (map (signed_view k)) (fast_read (8 * N.of_nat k) body (N.of_nat (length codes))) = Some (map Z.of_N codes).
+Proof.
+  intros k codes Hk Hl Hc. rewrite gen_encode_dict_is_block by exact Hl. rewrite wr_dict_indices_shape.
+  eexists. split; [reflexivity|].
+  assert (Hh : 2 * ((N.of_nat (length codes) + 7) / 8) + 1 < 2 ^ 64).
+  { assert ((N.of_nat (length codes) + 7) / 8 <= N.of_nat (length codes) + 7) by (apply N.div_le_upper_bound; lia).
+    change (2 ^ 64) with (4 * 2 ^ 62). change (2 ^ 62) with 4611686018427387904 in *. lia. }
+  assert (Hc' : Forall (fun v => v < 256 ^ N.of_nat k) codes).
+  { eapply Forall_impl; [|exact Hc]. intros a Ha. eapply N.lt_trans; [exact Ha|].
+    replace (256 ^ N.of_nat k) with (2 ^ (8 * N.of_nat k)) by (change 256 with (2 ^ 8); rewrite <- N.pow_mul_r; reflexivity).
+    apply N.pow_lt_mono_r; lia. }
+  change (wr_codes k codes) with (fixed_enc k codes).
+  rewrite (fast_leaf_correct k _ codes Hk Hh Hc'). cbn [option_map]. f_equal.
+  apply map_ext_in. intros a Ha. unfold signed_view.
+  rewrite Forall_forall in Hc. specialize (Hc a Ha).
+  apply N.ltb_lt in Hc. rewrite Hc. reflexivity.
+Qed.
+Print Assumptions gen_encode_dict_own_reader.
 
 (* ---- 2. round trips through the SPEC decoder, on the regenerated text ------------------------------------------ *)
 Theorem gen_defs_nonull_roundtrip : forall strict n mask rest, 0 < n -> n < 2 ^ 62 ->
